@@ -145,6 +145,19 @@ func (w *World) contractFor(fn *ssa.Function) *Contract {
 	return nil
 }
 
+// contractForIn: an extern contract written in the caller's package contract file
+// (key "@<pkgdir>@<extern key>") overrides the global one.
+func (w *World) contractForIn(fn *ssa.Function, caller *ssa.Function) *Contract {
+	if caller != nil && caller.Pkg != nil && fn != nil {
+		if dir, ok := w.pkgDirOf(caller.Pkg.Pkg); ok {
+			if c, ok := w.ss.Contracts["@"+dir+"@"+externKey(fn)]; ok {
+				return c
+			}
+		}
+	}
+	return w.contractFor(fn)
+}
+
 func (w *World) contractForMethod(cc *ssa.CallCommon) *Contract {
 	t := cc.Value.Type()
 	key := "(" + t.String() + ")." + cc.Method.Name()
